@@ -24,6 +24,28 @@ STRENGTHENED = {
     'C12-1': 'timing case: body returns two poll intervals early but its thread is kept alive past the deadline by a slow log handler',
     'C13-1': 'second writer / reader whose own time-out is already expired or expires while the first is held',
     'C20-1': 'save_and_restore decorated now and called later (twice), sequences on a pre-declared configuration',
+    # third and fourth change per property (agents were told which ideas were taken)
+    'C01-4': 'directed programs whose phase returns a falsy non-PhaseResult value (0 / False / "" / []) in several positions',
+    'C05-3': 'diagnosers declared always_fail=True handing back one diagnosis / a list / a tuple / a generator',
+    'C05-4': 'caught by the C04 check after a program whose main body is blocked in a C wait (cancel_timeout_s 50 ms) and whose teardown phases use the test API was added, with a predicate on bodies begun after the abort returned',
+    'C07-4': 'typed InRange whose limits are numbers that the declared type changes (int truncation, a rescaling callable)',
+    'C08-3': 'two distinct plug classes carrying the same module and class name',
+    'C08-4': 'with_args() values whose names collide with plug argument names',
+    'C09-3': 'caught by the C19 check after a pause point *inside* a statement was added: the held thread is stopped right after each of its reads of the openhtf logger\'s handler list',
+    'C09-4': 'the Test is renamed (configure(name=...)) between repeated runs',
+    'C10-3': 'a second reader renders the running phase while the first is held at each line of its rendering',
+    'C11-3': 'a plug constructor that fails in the first run only; plug class attributes compared before / after',
+    'C11-4': 'nested mutable metadata the Test was declared with, updated in place by a phase',
+    'C12-3': 'phase profiling switched on for the timing table',
+    'C12-4': 'a monitored phase (core.monitors) abandoned alive after its time-out, followed by a phase monitoring a measurement of the same name',
+    'C13-4': 'one AdbMessage object written, its fields reassigned, written again',
+    'C15-4': 'caught by the C14 check after a close race was added: stream.close() held at each line while a reader takes the device\'s CLSE off the wire',
+    'C16-3': 'the chunk size setting lowered after the protocol handle was built',
+    'C16-4': 'DATA acknowledgement of exactly the announced size in upper-case hex',
+    'C17-3': 'two writers publishing to one destination at overlapping times',
+    'C17-4': 'injected faults raising KeyboardInterrupt / ThreadTerminationError instead of an OSError',
+    'C19-3': 'console logging (-vv) switched on: a handler with the CLI formatter ahead of the record handlers',
+    'C19-4': 'one log statement used first with a harmless value, then with a MAC',
 }
 rows = []
 root = os.path.join(HERE, 'seeded')
@@ -46,7 +68,10 @@ out = ['# Independently seeded changes', '',
        '    git -C /repo checkout -- .', '',
        '"first run" tells whether the check as it stood when the change arrived caught it; where it',
        'did not, the last column says what was added (the check was strengthened, never the change',
-       'adapted).  `tools/seedcheck.py` re-confirms a change and re-runs the check on it.', '',
+       'adapted).  `tools/seedcheck.py` re-confirms a change and re-runs the check on it.  Three',
+       'changes are caught by the check of a neighbouring property that owns the mechanism (an abort',
+       'with a body that cannot be killed: C04; two threads closing one ADB stream: C14; two runs',
+       'registering / removing log handlers: C19); meta.json names the command.', '',
        '| id | file | needs, in order to manifest | first run | reported mechanisms (quick tier) | added after a miss |',
        '|----|------|-----------------------------|-----------|---------------------------------|--------------------|']
 for d, m, files in rows:
